@@ -390,6 +390,18 @@ REJ_OK_TODAY = {
     "NESTED:SHA2(SHA2_HEX)": "a call nested directly inside a call rewritten by the same transform pass is not rewritten",
     "NESTED:TO_DECIMAL(TO_DECIMAL)": "same",
     "NESTED:TO_DECIMAL(TO_NUMERIC)": "same",
+    # nested family (ctx=nested_in=…): pairs that are rejected today.  sqlglot's transform() does not descend into a node the
+    # callback replaced, so an inner call that needs the same transform pass as its parent reaches DuckDB as written.
+    "NESTED:SHA2.msg(SHA2_HEX)": "SHA2_HEX inside a call replaced by transforms.sha256 is not rewritten",
+    "NESTED:SHA2_HEX.msg(SHA2_HEX)": "same",
+    "NESTED:SHA2_BINARY.msg(SHA2_HEX)": "same",
+    "NESTED:TO_DECIMAL.arg(TO_DECIMAL)": "inner call inside a call replaced by transforms.to_decimal is not rewritten",
+    "NESTED:TO_DECIMAL.arg(TO_NUMERIC)": "same",
+    "NESTED:TO_NUMBER.arg(TO_DECIMAL)": "same",
+    "NESTED:TO_NUMBER.arg(TO_NUMERIC)": "same",
+    "NESTED:TRIM.characters(TRIM)": "only the operand of TRIM gets the implicit VARCHAR cast, a TRIM in the characters argument does not",
+    "NESTED:TO_TIMESTAMP.arg(*)": "TO_TIMESTAMP of anything but a string / integer literal (see TO_TIMESTAMP:date_or_timestamp_expression)",
+    "NESTED:TO_TIMESTAMP_NTZ.arg(*)": "TO_TIMESTAMP_NTZ of a function call ends up in strptime(<expr>, …) or is not rewritten",
     "RANDOM:seed_2^32_and_above": "setseed() refuses the scaled seed",
     "SAMPLE:ROW": "DuckDB parser does not know the ROW sampling method",
     "SAMPLE:BLOCK": "DuckDB parser does not know the BLOCK sampling method",
@@ -993,9 +1005,110 @@ def gen_equal_null(tier, out, stats):
     case("EQUAL_NULL", _col("EQUAL_NULL(c, NULL)", "NULL::INT"), lambda: True, "bool", "fn=EQUAL_NULL,arg=column", out=out, stats=stats)
 
 
+# ---- nesting: every rewritten function inside every argument position of every rewritten function -------------------
+# Context family  ctx=nested_in=<outer fn>,arg=<argument>,inner=<inner fn> .  The inner calls (NEST_INNERS) are taken from
+# the alphabets above and chosen so that a call that is *not* rewritten (handed to DuckDB as written) answers differently:
+# a pattern matching more than once (DuckDB replaces the first match only), an omitted replacement, functions DuckDB does
+# not have (REGEXP_SUBSTR, TO_DATE, TO_DECIMAL, SHA2_HEX …), the quarter part, a FLOAT that is not exact in 32 bits.
+# The outer templates (NEST_OUTERS) fix their other arguments.  Expectation = outer reference applied to the inner
+# reference value.  An inner value is offered to an argument when its type tag is accepted there:
+#   s = any string, sd = string holding an ISO date/timestamp, sn = string holding a number, n = fixed-point number,
+#   i = integer, d = DATE, t = TIMESTAMP_NTZ, b = BOOLEAN, f = FLOAT
+
+
+def nest_inners(tier):
+    """(inner fn, sql, reference value, type tags)"""
+    ins = [
+        ("REGEXP_REPLACE", f"REGEXP_REPLACE({q('a-b-c')}, {q('-')}, {q('+')})", sf.regexp_replace("a-b-c", "-", "+"), "s"),
+        ("REGEXP_REPLACE", f"REGEXP_REPLACE({q('2024x02x29')}, {q('x')}, {q('-')})", sf.regexp_replace("2024x02x29", "x", "-"), "s sd"),
+        ("REGEXP_REPLACE", f"REGEXP_REPLACE({q('1x2x.x5')}, {q('x')})", sf.regexp_replace("1x2x.x5", "x"), "s sn"),
+        ("REGEXP_SUBSTR", f"REGEXP_SUBSTR({q('abc abd')}, {q('ab.')}, 1, 2)", sf.regexp_substr("abc abd", "ab.", 1, 2), "s"),
+        ("REGEXP_SUBSTR", f"REGEXP_SUBSTR({q('on 2024-02-29 12:13:14 sharp')}, {q('[0-9]+-[0-9]+-[0-9]+ [0-9]+')}, 4)",
+         sf.regexp_substr("on 2024-02-29 12:13:14 sharp", "[0-9]+-[0-9]+-[0-9]+ [0-9]+", 4) and "2024-02-29 12", "s"),
+        ("TRIM", "TRIM(12)", sf.trim(12), "s sn"),
+        ("LTRIM", f"LTRIM({q('xxaxx')}, {q('x')})", sf.ltrim("xxaxx", "x"), "s"),
+        ("SHA2_HEX", f"SHA2_HEX({q('abc')})", sf.sha2_hex("abc"), "s"),
+        ("TO_DECIMAL", f"TO_DECIMAL({q('12.345')}, 10, 2)", sf.to_decimal("12.345", 10, 2), "n"),
+        ("TO_NUMBER", f"TO_NUMBER({q('12.345')}, 10, 1)", sf.to_decimal("12.345", 10, 1), "n"),
+        ("TRY_TO_DECIMAL", f"TRY_TO_DECIMAL({q('7.55')}, 10, 1)", sf.try_to_decimal("7.55", 10, 1), "n"),
+        ("CAST_NUMBER", f"{q('1.45')}::NUMBER(2,1)", sf.cast_number("1.45", 2, 1), "n"),
+        ("DATEDIFF", f"DATEDIFF(day, {q('2024-01-01')}, {q('2024-03-01')})", sf.datediff("day", D(2024, 1, 1), D(2024, 3, 1)), "n i"),
+        ("TO_DATE", f"TO_DATE({q('2024-02-29 12:13:14')})", sf.to_date("2024-02-29 12:13:14"), "d"),
+        ("DATEADD[date]", f"DATEADD(quarter, 1, {q('2023-11-30')}::DATE)", sf.dateadd("quarter", 1, D(2023, 11, 30)), "d"),
+        ("TO_TIMESTAMP", f"TO_TIMESTAMP({q('2024-02-29 12:13:14')})", sf.to_timestamp("2024-02-29 12:13:14"), "t"),
+        ("TO_TIMESTAMP_NTZ", f"TO_TIMESTAMP_NTZ({q('2024-02-29 12:13:14')})", sf.to_timestamp("2024-02-29 12:13:14"), "t"),
+        ("TO_TIMESTAMP", "TO_TIMESTAMP(1700000000)", sf.to_timestamp(1700000000), "t"),
+        ("DATEADD[timestamp]", f"DATEADD(hour, 1, {q('2024-02-29')}::DATE)", sf.dateadd("hour", 1, D(2024, 2, 29)), "t"),
+        ("CAST_TIMESTAMP", f"{q('2020-01-01 01:02:03')}::TIMESTAMP_NTZ", sf.to_timestamp("2020-01-01 01:02:03"), "t"),
+        ("EQUAL_NULL", "EQUAL_NULL(1, NULL)", sf.equal_null(1, None), "b"),
+        ("CAST_FLOAT", f"{q('0.1')}::FLOAT", sf.cast_float("0.1"), "f"),
+    ]
+    if tier == T:
+        ins += [
+            ("RTRIM", f"RTRIM({q('  a  ')})", sf.rtrim("  a  "), "s"),
+            ("SHA2", f"SHA2({q('abc')})", sf.sha2_hex("abc"), "s"),
+            ("TO_NUMERIC", f"TO_NUMERIC({q('12.345')}, 10, 1)", sf.to_decimal("12.345", 10, 1), "n"),
+            ("DATEADD[date]", f"DATEADD(month, 1, {q('2024-01-31')}::DATE)", sf.dateadd("month", 1, D(2024, 1, 31)), "d"),
+            ("TO_DATE", f"TO_DATE({q('2024-02-29 23:59:59')}::TIMESTAMP_NTZ)", D(2024, 2, 29), "d"),
+            ("DATEDIFF", f"DATEDIFF(month, {q('2024-01-31')}::DATE, {q('2024-02-01')}::DATE)", 1, "n i"),
+        ]
+    return ins
+
+
+def nest_outers():
+    """(outer fn, argument name, accepted type tags, sql template with {x}, reference of the outer call as a function of the
+    inner value, result kind, meta)"""
+    return [
+        ("REGEXP_REPLACE", "subject", "s", f"REGEXP_REPLACE({{x}}, {q('b')}, {q('B')})", lambda v: sf.regexp_replace(v, "b", "B"), "str", None),
+        ("REGEXP_REPLACE", "pattern", "s", f"REGEXP_REPLACE({q('aabbc 12 abd 12.5')}, {{x}}, {q('#')})", lambda v: sf.regexp_replace("aabbc 12 abd 12.5", v, "#"), "str", None),
+        ("REGEXP_REPLACE", "replacement", "s", f"REGEXP_REPLACE({q('x-y-z')}, {q('-')}, {{x}})", lambda v: sf.regexp_replace("x-y-z", "-", v), "str", None),
+        ("REGEXP_SUBSTR", "subject", "s", f"REGEXP_SUBSTR({{x}}, {q('[a-z0-9]+')}, 1, 2)", lambda v: sf.regexp_substr(v, "[a-z0-9]+", 1, 2), "str", None),
+        ("SPLIT", "string", "s", f"SPLIT({{x}}, {q('b')})", lambda v: sf.split(v, "b"), "array", None),
+        ("SPLIT", "separator", "s", f"SPLIT({q('x12yabdz')}, {{x}})", lambda v: sf.split("x12yabdz", v), "array", None),
+        ("TRIM", "subject", "s", f"TRIM({{x}}, {q('a1c5')})", lambda v: sf.trim(v, "a1c5"), "str", None),
+        ("LTRIM", "subject", "s", "LTRIM({x})", lambda v: sf.ltrim(v), "str", None),
+        ("TRIM", "characters", "s", f"TRIM({q('12a21')}, {{x}})", lambda v: sf.trim("12a21", v), "str", None),
+        ("SHA2", "msg", "s", "SHA2({x})", lambda v: sf.sha2_hex(v), "str", None),
+        ("SHA2_HEX", "msg", "s", "SHA2_HEX({x})", lambda v: sf.sha2_hex(v), "str", None),
+        ("SHA2_BINARY", "msg", "s", "SHA2_BINARY({x})", lambda v: sf.sha2_binary(v), "bytes", None),
+        ("TO_DATE", "arg", "sd d t", "TO_DATE({x})", lambda v: sf.to_date(v), "date", None),
+        ("TO_TIMESTAMP", "arg", "sd d t", "TO_TIMESTAMP({x})", lambda v: sf.to_timestamp(v), "ts", None),
+        ("TO_TIMESTAMP_NTZ", "arg", "sd d t", "TO_TIMESTAMP_NTZ({x})", lambda v: sf.to_timestamp(v), "ts", None),
+        ("TO_DECIMAL", "arg", "sn n", "TO_DECIMAL({x}, 38, 2)", lambda v: sf.to_decimal(v, 38, 2), "num", {"precision": 38, "scale": 2}),
+        ("TO_NUMBER", "arg", "sn n", "TO_NUMBER({x}, 38, 2)", lambda v: sf.to_decimal(v, 38, 2), "num", {"precision": 38, "scale": 2}),
+        ("TRY_TO_DECIMAL", "arg", "sn", "TRY_TO_DECIMAL({x}, 38, 2)", lambda v: sf.try_to_decimal(v, 38, 2), "num", {"precision": 38, "scale": 2}),
+        ("CAST_NUMBER", "arg", "sn n", "({x})::NUMBER(20,2)", lambda v: sf.cast_number(v, 20, 2), "num", {"precision": 20, "scale": 2}),
+        ("CAST_FLOAT", "arg", "sn n f", "({x})::FLOAT", lambda v: sf.cast_float(v), "float", None),
+        ("CAST_TIMESTAMP", "arg", "sd d t", "({x})::TIMESTAMP_NTZ", lambda v: sf.to_timestamp(v), "ts", None),
+        ("DATEADD", "date", "d t", "DATEADD(day, 1, {x})", lambda v: sf.dateadd("day", 1, v), None, None),
+        ("DATEADD", "amount", "i", f"DATEADD(day, {{x}}, {q('2024-01-01')}::DATE)", lambda v: sf.dateadd("day", int(v), D(2024, 1, 1)), "date", None),
+        ("DATEDIFF", "first", "d t", f"DATEDIFF(day, {{x}}, {q('2024-03-01')}::DATE)", lambda v: sf.datediff("day", v, D(2024, 3, 1)), "num", {"scale": 0}),
+        ("DATEDIFF", "second", "d t", f"DATEDIFF(month, {q('2023-12-31')}::DATE, {{x}})", lambda v: sf.datediff("month", D(2023, 12, 31), v), "num", {"scale": 0}),
+        ("EQUAL_NULL", "first", "s n d t b", None, lambda v: True, "bool", None),
+    ]
+
+
+def gen_nested(tier, out, stats):
+    if _STYLE[0] != "single":
+        return  # the constant syntax is an independent dimension, covered by every other generator
+    for ifn, isql, ival, itags in nest_inners(tier):
+        tags = set(itags.split())
+        for ofn, arg, accept, tpl, oref, kind, meta in nest_outers():
+            if not tags & set(accept.split()):
+                continue
+            if tpl is None:  # EQUAL_NULL(<inner>, <literal of the documented inner value>)
+                sql = f"EQUAL_NULL({isql}, {lit(ival)})"
+            else:
+                sql = tpl.format(x=isql)
+            k = kind or ("ts" if isinstance(ival, TS) else "date")
+            form = f"NESTED:{ofn}.{arg}({ifn})"
+            case("NESTED", sql, lambda oref=oref, ival=ival: oref(ival), k, f"ctx=nested_in={ofn},arg={arg},inner={ifn}", meta=meta,
+                 rej_ok=form in REJ_OK_TODAY or f"NESTED:{ofn}.{arg}(*)" in REJ_OK_TODAY, out=out, stats=stats)
+
+
 GENERATORS = [
     gen_regexp_substr, gen_regexp_replace, gen_split, gen_trim, gen_to_date, gen_to_timestamp, gen_to_decimal, gen_casts,
-    gen_dateadd, gen_datediff, gen_sha2, gen_equal_null,
+    gen_dateadd, gen_datediff, gen_sha2, gen_equal_null, gen_nested,
 ]
 _CASES: dict = {}
 
